@@ -58,6 +58,7 @@ class Prop:
     shards = {'quick': 8, 'thorough': 16}
     shrink_budget = 400           # max decide() calls of the structural shrinker
     sample_cap = 12
+    case_timeout = 300            # seconds; outer safety net only: a worker stuck that long is killed -> exit 2 (inconclusive)
 
     def selftest(self, tier):
         """oracle self-tests; returns a dict for the evidence; raises HarnessError"""
@@ -197,12 +198,22 @@ def _shard_body(prop, tier, seed, shard, n_examples, genome_len, known):
     stats = Stats()
     holder = {}
 
+    import faulthandler
+    trace_dir = os.environ.get('VERIF_TRACE_DIR')
+
     def body(data):
         src = Src(data)
         case = prop.decode(src)
+        if trace_dir:
+            with open(os.path.join(trace_dir, 'shard-%d.json' % shard), 'w') as f:
+                json.dump({'case': case}, f, default=str)
+        faulthandler.dump_traceback_later(prop.case_timeout, exit=True)
         if getattr(src, 'struct_exhausted', src.exhausted):
             stats.exhausted_genomes += 0 if stats.frozen else 1
-        out = prop.decide(case)
+        try:
+            out = prop.decide(case)
+        finally:
+            faulthandler.cancel_dump_traceback_later()
         stats.add(prop, case, out)
         if out.status == 'fail':
             k = is_known(prop, known, case, out)
@@ -249,8 +260,13 @@ def _enum_chunk(args):
     def work():
         stats = Stats()
         fails = []
+        import faulthandler
         for case in chunk:
-            out = prop.decide(case)
+            faulthandler.dump_traceback_later(prop.case_timeout, exit=True)
+            try:
+                out = prop.decide(case)
+            finally:
+                faulthandler.cancel_dump_traceback_later()
             stats.add(prop, case, out)
             if out.status == 'fail':
                 if is_known(prop, known, case, out) is not None:
@@ -388,11 +404,14 @@ def run_property(prop, tier, seed, replay=None):
         cases = list(cases)
         nchunk = 64
         chunks = [cases[i::nchunk] for i in range(nchunk)]
-        with concurrent.futures.ProcessPoolExecutor(max_workers=16, mp_context=ctx) as ex:
-            for st_, fails in ex.map(_enum_chunk, [(prop, c, known) for c in chunks if c]):
-                stats.merge(st_)
-                for fl in fails:
-                    violations.append(fl[:3])
+        try:
+            with concurrent.futures.ProcessPoolExecutor(max_workers=16, mp_context=ctx) as ex:
+                for st_, fails in ex.map(_enum_chunk, [(prop, c, known) for c in chunks if c]):
+                    stats.merge(st_)
+                    for fl in fails:
+                        violations.append(fl[:3])
+        except concurrent.futures.process.BrokenProcessPool as e:
+            raise HarnessError('a worker process died during the enumeration (watchdog or crash): %s' % e)
         enum_info = {'scope': desc, 'cases': len(cases), 'exhaustive': True}
     # shrink + report
     rc = 0
